@@ -201,6 +201,9 @@ func (p *Packet) unpackWithCompression(r io.Reader, threshold int) error {
 		}
 		DataLength = VarInt(int64(PacketLength) - n2 - n3)
 	}
+	if DataLength < 0 {
+		return fmt.Errorf("compressed packet error: data length is smaller than the packet id")
+	}
 	if cap(p.Data) < int(DataLength) {
 		p.Data = make([]byte, DataLength)
 	} else {
